@@ -235,6 +235,10 @@ class ExprMixin:
         if isinstance(v, VRef):
             h = st.heap[v.rid]
             if isinstance(h, HList):
+                if h.et is None:                    # the untyped empty list: nothing to index
+                    if self.spec:
+                        return k(st, VObj('Any', z3.Const('undefined_item', usort('Any'))))
+                    return self.raise_(st, 'IndexError')
                 if not isinstance(i, (VInt, VBool)):
                     raise Unsupported("list index %r" % (i,))
                 iz = to_z3(i, T_INT)
